@@ -169,6 +169,10 @@ impl Prop for C15 {
             GenSpec::random("random-doubles", tier.pick(10_000, 200_000)),
             GenSpec::random("random-gdsreals", tier.pick(5_000, 100_000)),
             GenSpec::random("records", tier.pick(200, 20_000)),
+            // the codec's very FIRST use in a process, made by twelve threads at once (a thread pool loading files at start-up): each case is a
+            // fresh child process, because anything the codec initialises lazily is initialised once per process
+            GenSpec::random("first-use", tier.pick(32, 400)),
+            GenSpec::random("first-use-child", 0),
         ]
     }
     fn run_case(&self, cx: &mut Cx) {
@@ -258,6 +262,70 @@ impl Prop for C15 {
                     self.check_gdsreal(cx, b);
                 }
                 cx.sample(|| json!({"first_of_batch": hex(first)}));
+            }
+            "first-use" => {
+                cx.eval();
+                cx.nontrivial(cx.n ^ 0xF1F1);
+                match crate::rt::run::spawn_one("C15", cx.tier, cx.seed, "first-use-child", cx.n, &cx.scratch, std::time::Duration::from_secs(60)) {
+                    crate::rt::run::ChildEnd::Ok(r) => {
+                        for v in r.violations {
+                            cx.violation(&v.signature, v.detail);
+                        }
+                        if r.counters.get("first_use_threads_agree").copied().unwrap_or(0) > 0 {
+                            cx.count("first_use_processes_agree");
+                        }
+                    }
+                    other => cx.inconclusive(format!("first-use child: {:?}", other)),
+                }
+            }
+            "first-use-child" => {
+                // (nothing in this process has touched the codec yet)
+                let n = std::thread::available_parallelism().map(|x| x.get()).unwrap_or(8).clamp(4, 32);
+                // a spinning rendez-vous: the threads leave it within nanoseconds of each other (a parking barrier wakes them microseconds apart)
+                let barrier = std::sync::atomic::AtomicUsize::new(0);
+                let seed = crate::rt::prng::mix(&[cx.seed, cx.n, 0xC15]);
+                let results: Vec<Option<String>> = std::thread::scope(|sc| {
+                    let hs: Vec<_> = (0..n)
+                        .map(|t| {
+                            let barrier = &barrier;
+                            sc.spawn(move || {
+                                let mut rng = Rng::new(seed ^ t as u64);
+                                // (the first value of every thread has one of the top exponents: whatever is tabulated per exponent is
+                                // most likely filled in ascending order, and the last entries are ready last)
+                                let vals: Vec<(u64, f64)> = (0..6)
+                                    .map(|i| {
+                                        let mut b = C15::random_normalised(&mut rng) & !((1u64 << 3) - 1); // <= 53 significant bits: exactly representable
+                                        if i == 0 {
+                                            b |= 0x7F00_0000_0000_0000;
+                                        }
+                                        (b, decode_ref(b))
+                                    })
+                                    .collect();
+                                barrier.fetch_add(1, std::sync::atomic::Ordering::SeqCst);
+                                while barrier.load(std::sync::atomic::Ordering::SeqCst) < n {
+                                    std::hint::spin_loop();
+                                }
+                                for (b, want) in vals {
+                                    let got = GdsFloat64::decode(b);
+                                    if got.to_bits() != want.to_bits() {
+                                        return Some(format!("decode({}) = {:e}, reference {:e}", hex(b), got, want));
+                                    }
+                                    let back = GdsFloat64::encode(want);
+                                    if back != b && sig_bits(b) <= 53 && is_normalised(b) && want != 0.0 {
+                                        return Some(format!("encode({:e}) = {}, reference {}", want, hex(back), hex(b)));
+                                    }
+                                }
+                                None
+                            })
+                        })
+                        .collect();
+                    hs.into_iter().map(|h| h.join().unwrap_or(Some("thread died".into()))).collect()
+                });
+                cx.eval();
+                match results.into_iter().flatten().next() {
+                    Some(w) => cx.violation("first-use|wrong-result-on-first-concurrent-use", json!({"what": w})),
+                    None => cx.count("first_use_threads_agree"),
+                }
             }
             "records" => {
                 // Through the record layer: UNITS, MAG, ANGLE of a written and re-read library
